@@ -40,6 +40,7 @@ type world struct {
 	runner
 	cw       *chainx.World
 	UA, UB   util.Uint160
+	T        *neotest.Contract // token contract: CALLT into UA.run / UA.runSafe / GAS.balanceOf with every flag set
 	R        *neotest.Contract
 	rMethods []rMethod
 	txHash   util.Uint256 // an on-chain transaction
@@ -237,8 +238,15 @@ func newWorld() (*world, error) {
 	if err != nil {
 		return fail("deploy R tx", err)
 	}
-	if err := w.block(d); err != nil {
-		return fail("deploy R", err)
+	if w.T, err = buildTokenContract("T", n.Validator.ScriptHash(), nil, flagTokens(w.UA, nativehashes.GasToken)); err != nil {
+		return fail("build T", err)
+	}
+	dt, err := n.DeployTx(w.T, n.Validator, nil)
+	if err != nil {
+		return fail("deploy T tx", err)
+	}
+	if err := w.block(d, dt); err != nil {
+		return fail("deploy R, T", err)
 	}
 	// block 2: state that lets every native method succeed for some arguments
 	var txs []*transaction.Transaction
